@@ -3,6 +3,10 @@ integer inputs: used to enumerate the finitely many orderings their comparisons 
 from facts import strip, strip_pre, const_value, show
 
 
+class Overflow64(Exception):
+    """raised under env["$trap64"] when + - * leaves the signed 64-bit range"""
+
+
 class Unsupported(Exception):
     pass
 
@@ -273,7 +277,11 @@ def evs(n, env, events=None):
              "!=": lambda: int(a != b), "&": lambda: a & b, "|": lambda: a | b}.get(op)
         if f is None:
             raise Unsupported("operator " + op)
-        return f()
+        r = f()
+        if env.get("$trap64") and op in ("+", "-", "*") and isinstance(r, int) and not (-(1 << 63) <= r < (1 << 63)):
+            # the slice computes in signed 64-bit integers: this result does not exist in C (undefined behaviour)
+            raise Overflow64("%s (%s %s %s)" % (canon(n)[:60], a, op, b))
+        return r
     if k == "cond":
         return evs(n["a"], env, events) if evs(n["c"], env, events) else evs(n["b"], env, events)
     if k == "call":
